@@ -11,6 +11,8 @@ import subprocess
 
 HERE = os.path.dirname(os.path.abspath(__file__))
 FRONT = os.path.join(HERE, 'front', 'target', 'release', 'zxfront')
+if not os.path.exists(FRONT) and os.path.exists('/verif/zx/front/target/release/zxfront'):
+    FRONT = '/verif/zx/front/target/release/zxfront'     # running from a snapshot of /verif (vp run): use the built front end
 
 
 class Unsupported(Exception):
